@@ -41,6 +41,8 @@ func main() {
 	branchTO := flag.Duration("branchtimeout", 10*time.Second, "")
 	assertTO := flag.Duration("asserttimeout", 60*time.Second, "")
 	tags := flag.String("tags", "verif", "")
+	caseLimit := flag.String("caselimit", "", "per-harness case count limits: VfH_a=5,VfH_b=3 (cases 0..n-1 are run)")
+	trace := flag.Bool("trace", false, "log target panics to stderr")
 	flag.Parse()
 
 	o := output{Pkg: *pkg, Solver: *solver}
@@ -91,7 +93,7 @@ func main() {
 	o.Limits = map[string]int64{"max_paths": int64(lim.MaxPaths), "max_decisions_per_path": int64(lim.MaxDecisions),
 		"max_steps_per_path": lim.MaxSteps, "branch_timeout_ms": lim.BranchTimeout.Milliseconds(), "assert_timeout_ms": lim.AssertTimeout.Milliseconds()}
 	res, err := gosym.RunAll(prog, *pkg, hs, *onlyCase, gosym.Options{Jobs: *jobs, Solver: *solver, Lim: lim,
-		MaxSamples: *maxSamples, SMTLogDir: *smtlog, TaskTimeout: *taskTO})
+		CaseLimit: parseLimits(*caseLimit), MaxSamples: *maxSamples, SMTLogDir: *smtlog, TaskTimeout: *taskTO, Trace: *trace})
 	if err != nil {
 		fail(err)
 	}
@@ -105,4 +107,16 @@ func main() {
 		b, _ := json.MarshalIndent(o, "", " ")
 		os.Stdout.Write(b)
 	}
+}
+
+func parseLimits(s string) map[string]int {
+	m := map[string]int{}
+	for _, kv := range strings.Split(s, ",") {
+		if i := strings.IndexByte(kv, '='); i > 0 {
+			n := 0
+			fmt.Sscanf(kv[i+1:], "%d", &n)
+			m[kv[:i]] = n
+		}
+	}
+	return m
 }
